@@ -206,8 +206,10 @@ def receiveChecks (r : NRef) (port : Nat) (src : String) (d : Bytes) (attack : B
         match tr with
         | some t =>
           let fresh := !t.delivered && t.dst = me && src = t.src
-          let inSync := before.peers.any (fun p => p.addr = src && p.ready)
-          if fresh && inSync && devs.isEmpty && r.now ≤ t.born + 1 then some "C02 payload from an established peer was not delivered"
+          -- the receiver holds a ready session for the sender and is not in the middle of a handshake with it
+          -- (while its own end of a new handshake is still pending the old session is legitimately still in place)
+          let inSync := before.peers.any (fun p => p.addr = src && p.ready) && !before.pending.contains src
+          if fresh && inSync && devs.isEmpty && r.now ≤ t.born + 1 then some "C02/C05 payload from an established peer (both ends completed their handshake) was not delivered"
           else none
         | none => none
     let r2 := { r1 with tracked := r1.tracked.map (fun t => if t.bytes = d && !devs.isEmpty then { t with delivered := true } else t) }
